@@ -167,9 +167,25 @@ _DISPATCH = {}
 _ARM8 = {}
 
 
+_LETS = {}
+
+
+def _unalias(e, depth=0):
+    """`let mine = &self.labels; let n = mine.len();` — a local bound once by a plain `let` stands for its initialiser"""
+    while e.get("k") == "Path" and e.get("res") == "local" and e.get("name") not in ("self", "other") and depth < 6:
+        init = _LETS.get((e.get("name"), e.get("id")))
+        if init is None:
+            break
+        e = peel(init)
+        while e.get("k") in ("AddrOf",) and isinstance(e.get("e"), dict):
+            e = peel(e["e"])
+        depth += 1
+    return e
+
+
 def _mirror(a, b):
     """Are a and b the same projection, a of `self` and b of `other` (or the reverse)?  Returns the projection's description."""
-    a, b = peel(a), peel(b)
+    a, b = _unalias(peel(a)), _unalias(peel(b))
     if a.get("k") != b.get("k"):
         return None
     k = a.get("k")
@@ -360,6 +376,10 @@ def run(ctx):
     # early exits of == ahead of the per-class comparison: `false` only where a projection that equal keys share differs
     # (name, label count, hash), `true` only for one and the same key; anything else decides equality outside the canonical form
     if eqf is not None and eqf.path in _DISPATCH:
+        _LETS.clear()
+        for st in dwalk(eqf.hir):
+            if st.get("k") in ("Let", "Local") and isinstance(st.get("pat"), dict) and st["pat"].get("k") == "Bind" and st.get("init") and "Mut" not in str(st["pat"].get("mode", "")).split(",")[-1]:
+                _LETS[(st["pat"].get("name"), st["pat"].get("id"))] = st["init"]
         shared = {"." + KF["name"], "." + KF["labels"] + ".len()", ".get_hash()", "." + KF["labels"] + ".is_empty()"}
         for ret, cond in early_exits(eqf, _DISPATCH[eqf.path]):
             val = peel(ret.get("e") or {})
